@@ -1,0 +1,85 @@
+//go:build verif
+
+package core
+
+import (
+	"sort"
+	"time"
+
+	"go.nanomsg.org/mangos/v3"
+)
+
+// Read-only accessors for the conformance harness in /verif (build tag
+// "verif").  Nothing here changes library state.
+
+// VerifIDsInUse returns the pipe IDs currently reserved in the process-wide
+// allocator, sorted.
+func VerifIDsInUse() []uint32 {
+	pipeIDs.lock.Lock()
+	defer pipeIDs.lock.Unlock()
+	ids := make([]uint32, 0, len(pipeIDs.used))
+	for id := range pipeIDs.used {
+		ids = append(ids, id)
+	}
+	sort.Slice(ids, func(i, j int) bool { return ids[i] < ids[j] })
+	return ids
+}
+
+// VerifIDInUse reports whether id is reserved.
+func VerifIDInUse(id uint32) bool {
+	pipeIDs.lock.Lock()
+	defer pipeIDs.lock.Unlock()
+	_, ok := pipeIDs.used[id]
+	return ok
+}
+
+// VerifSocketPipes returns the IDs of the pipes listed by the socket, sorted.
+func VerifSocketPipes(ms mangos.Socket) []uint32 {
+	s, ok := ms.(*socket)
+	if !ok {
+		return nil
+	}
+	s.pipes.lock.Lock()
+	defer s.pipes.lock.Unlock()
+	ids := make([]uint32, 0, len(s.pipes.pipes))
+	for id := range s.pipes.pipes {
+		ids = append(ids, id)
+	}
+	sort.Slice(ids, func(i, j int) bool { return ids[i] < ids[j] })
+	return ids
+}
+
+// VerifDialerState is the projected state of a dialer.
+type VerifDialerState struct {
+	Closed     bool
+	Active     bool
+	Asynch     bool
+	ReconnTime time.Duration
+	MinTime    time.Duration
+	MaxTime    time.Duration
+}
+
+// VerifDialer returns the projected state of a dialer.
+func VerifDialer(md mangos.Dialer) (VerifDialerState, bool) {
+	d, ok := md.(*dialer)
+	if !ok {
+		return VerifDialerState{}, false
+	}
+	d.Lock()
+	defer d.Unlock()
+	return VerifDialerState{
+		Closed: d.closed, Active: d.active, Asynch: d.asynch,
+		ReconnTime: d.reconnTime, MinTime: d.reconnMinTime, MaxTime: d.reconnMaxTime,
+	}, true
+}
+
+// VerifListener returns (closed, active) of a listener.
+func VerifListener(ml mangos.Listener) (closed bool, active bool, ok bool) {
+	l, ok := ml.(*listener)
+	if !ok {
+		return false, false, false
+	}
+	l.Lock()
+	defer l.Unlock()
+	return l.closed, l.active, true
+}
